@@ -9,6 +9,10 @@
      C12_edges : forall pr, project_shape pr = true -> same_edges (edges_model pr) (edges_py pr) = true.
    Proved instead:
    - four refuting witnesses, one per recorded deviation (F31-F34);
+   - repaired since: F63 (TYPE_CHECKING conditions), F65 (m.py next to a package m/: C12_edges_wf_shadowed drops the
+     "one file per module name" exclusion), F62 (namespace packages and include_third_party:
+     C12_include_third_party_irrelevant holds for every project; project_shape, the shape part of wf_project, no longer
+     demands an __init__.py in every directory: C12_wf_admits_namespace_packages, C12_check_edges_wf);
    - UNBOUNDED (Deps/ImportsAgree.v, no enumeration):
        C12_edges_wf      : forall pr, wf_project pr = true -> same_edges (edges_model pr) (edges_py pr) = true
        C12_edges_wf_own  : forall pr, wf_mod_own_strong pr = true ->
@@ -29,7 +33,7 @@
    The metric theorems are unconditional. *)
 From Coq Require Import NArith ZArith QArith Qabs List Bool Arith.
 From PV Require Import Deps.PyImport Deps.Imports Deps.ImportsWf Deps.Metrics Deps.MetricsProofs Deps.DepthProofs
-  Deps.ImportsProofs Deps.ImportsAgree.
+  Deps.ImportsProofs Deps.ImportsAgree Deps.ImportsShadow.
 Import ListNotations.
 
 (* ---- module metrics --------------------------------------------------------------------------- *)
@@ -126,10 +130,10 @@ Theorem C12_wf_inhabited : Nat.leb 1000 bounded_domain_wf = true /\ wf_project w
 Proof. exact bounded_domain_inhabited. Qed.
 
 (* ---- the unbounded agreement --------------------------------------------------------------------- *)
-(* the model graph as a set: A -> B iff a runtime import of A resolves (resolved_modules) to a project module B <> A
-   that is not below the package A *)
+(* the model graph as a set: A -> B iff a runtime import of the file of A (not a file A.py next to a package A/) resolves
+   (resolved_modules) to a project module B <> A that is not below the package A *)
 Theorem C12_edges_model_spec : forall pr e, In e (edges_model pr) <->
-  exists m ii r, In m pr /\ In ii (collectModuleImports m) /\ ii_tc ii = false /\
+  exists m ii r, In m pr /\ shadowed pr m = false /\ In ii (collectModuleImports m) /\ ii_tc ii = false /\
     In r (resolved_modules pr (empty_graph pr) m ii) /\
     (m_is_pkg m && strict_prefixb (m_path m) r) = false /\
     e = (m_path m, r) /\ is_module pr r = true /\ m_path m <> r.
@@ -141,10 +145,11 @@ Theorem C12_relative_import_agrees : forall m lv p,
 Proof. exact relative_import_agrees. Qed.
 
 (* absolute imports: without a same-named module beside or one directory above the importing file (abs_ok, the
-   negation of F31) the import resolves to the module of that name, or to nothing that is a project module *)
+   negation of F31) the import resolves to the module of that name (a project module, a namespace directory of the
+   project or a third-party name), or - a standard-library name - to nothing *)
 Theorem C12_absolute_import_agrees : forall pr m p, p <> [] -> abs_ok pr m p = true ->
   resolveAbsoluteImportWithProject pr m p = Some p \/
-  (is_module pr p = false /\ resolveAbsoluteImportWithProject pr m p = None).
+  (is_module pr p = false /\ isStandardLibrary p = true /\ resolveAbsoluteImportWithProject pr m p = None).
 Proof. exact absolute_import_agrees. Qed.
 
 (* re-exports: "from t import n" is resolved like CPython binds it, for every t and n, except when the __init__ of t
@@ -167,6 +172,31 @@ Proof. exact stmt_agrees. Qed.
 (* THE UNBOUNDED THEOREM: outside the four deviation classes the import graph is the specification's, for all projects *)
 Theorem C12_edges_wf : forall pr, wf_project pr = true -> same_edges (edges_model pr) (edges_py pr) = true.
 Proof. exact edges_wf. Qed.
+
+(* F65 repaired (21fe01e): a file m.py next to a package m/ is never imported by Python, so the specification's graph
+   of such a project is the graph of the project without these files (drop_shadowed).  The analyser's graph does not
+   change when they are removed, for every project, and the unbounded theorem holds under wf_project_sh, which no
+   longer demands one file per module name: wf_project_sh pr = wf_project (drop_shadowed pr), implied by wf_project *)
+Theorem C12_edges_model_ignores_shadowed : forall pr e, In e (edges_model pr) <-> In e (edges_model (drop_shadowed pr)).
+Proof. exact edges_model_drop_shadowed. Qed.
+
+Theorem C12_edges_wf_shadowed : forall pr, wf_project_sh pr = true ->
+  same_edges (edges_model pr) (edges_py (drop_shadowed pr)) = true.
+Proof. exact edges_wf_sh. Qed.
+
+Theorem C12_wf_project_sh_weaker : forall pr, wf_project pr = true -> wf_project_sh pr = true /\ drop_shadowed pr = pr.
+Proof. exact wf_project_sh_weaker. Qed.
+
+(* the former witness of F65 (dup.py "import user" next to dup/__init__.py): rejected by wf_project, accepted by
+   wf_project_sh, the same graph in both file orders, without the edge dup -> user the specification would give if
+   the shadowed file counted *)
+Theorem C12_shadowed_file_witness :
+  wf_project w_shadow = false /\ wf_project_sh w_shadow = true /\
+  edges_model w_shadow = [([1], [4]); ([3], [1]); ([3], [1; 2]); ([5], [1; 2])]%N /\
+  edges_model (rev w_shadow) = [([5], [1; 2]); ([3], [1]); ([3], [1; 2]); ([1], [4])]%N /\
+  same_edges (edges_model w_shadow) (edges_py (drop_shadowed w_shadow)) = true /\
+  has_edge (edges_py w_shadow) ([1], [3])%N = true.
+Proof. exact shadow_witness. Qed.
 
 (* with F32 present: the specification's graph minus the __init__ -> own submodule edges, for all projects *)
 Theorem C12_edges_wf_own : forall pr, wf_mod_own_strong pr = true ->
@@ -215,6 +245,10 @@ Print Assumptions C12_absolute_import_agrees.
 Print Assumptions C12_reexport_agrees.
 Print Assumptions C12_statement_agrees.
 Print Assumptions C12_edges_wf.
+Print Assumptions C12_edges_model_ignores_shadowed.
+Print Assumptions C12_edges_wf_shadowed.
+Print Assumptions C12_wf_project_sh_weaker.
+Print Assumptions C12_shadowed_file_witness.
 Print Assumptions C12_edges_wf_own.
 Print Assumptions C12_wf_mod_own_insufficient.
 Print Assumptions C12_wf_strong_inhabited.
@@ -222,7 +256,7 @@ Print Assumptions C12_wf_project_reexport_example.
 
 (* ---- second part: analysis options, TYPE_CHECKING conditions, layouts (Deps/ImportsOpt.v, Deps/TcGuard.v) --------
    The option-parametrised model is tied to the code by the correspondence check (harness/c12x.py, hook op imports_x). *)
-From PV Require Import Deps.ImportsOpt Deps.ImportsOptRun Deps.ImportsOptProofs Deps.TcGuard.
+From PV Require Import Deps.ImportsOpt Deps.ImportsOptRun Deps.ImportsOptProofs Deps.TcGuard Gen.ImportsConst.
 
 (* for the default options (and no wildcard re-export, which Deps/Imports.v does not distinguish) the parametrised
    model is the model of the first part, so every theorem above speaks about it too *)
@@ -235,21 +269,55 @@ Theorem C12_follow_relative_off : forall o pr order, o_rel o = false ->
   AnalyzeFiles_o o pr order = AnalyzeFiles_o (set_rel o) pr (map strip_rel order).
 Proof. exact follow_relative_off. Qed.
 
-(* include_stdlib / include_third_party never change the graph of a project whose module directories all have an
-   __init__.py (for every project, every file order, every value of the other options) ... *)
+(* F62 repaired (8ba1334): include_third_party never changes the graph, for EVERY project (namespace packages included),
+   every file order and every value of the other options: the option concerns modules outside the project, and a
+   directory of the project is resolved before an import is classified as third-party.  (Formerly only under
+   dirs_have_init, with the refuting witness C12_include_third_party_refuted_namespace.) *)
+Theorem C12_include_third_party_irrelevant : forall o o' pr order,
+  o_stdlib o = o_stdlib o' -> o_rel o = o_rel o' -> o_excl o = o_excl o' ->
+  AnalyzeFiles_o o pr order = AnalyzeFiles_o o' pr order.
+Proof. exact include_third_party_irrelevant. Qed.
+
+(* include_stdlib does not change the graph of a project whose module directories all have an __init__.py either ... *)
 Theorem C12_include_options_irrelevant : forall o o' pr order,
   o_rel o = o_rel o' -> o_excl o = o_excl o' -> dirs_have_init pr = true ->
   AnalyzeFiles_o o pr order = AnalyzeFiles_o o' pr order.
 Proof. exact include_options_irrelevant. Qed.
 
-(* ... FULL STATEMENT without the hypothesis dirs_have_init is false (F62; `pyscn check --select deps` runs with
-   check_opts, C11 F66): two modules of a namespace package that import each other *)
-Theorem C12_include_third_party_refuted_namespace :
+(* ... without the hypothesis it can: a namespace directory named like a standard-library package (xml/mod.py without
+   xml/__init__.py).  This follows Python, where the standard library's regular package wins over a namespace package *)
+Theorem C12_include_stdlib_matters_for_stdlib_named_namespace :
+  dirs_have_init w_stdlib_namespace = false /\
+  edges_model_o (Build_opts true false true []) w_stdlib_namespace = [([5], [stdlib_code_base; 2])]%N /\
+  edges_model_o (Build_opts false true true []) w_stdlib_namespace = [].
+Proof. exact include_stdlib_matters. Qed.
+
+(* the graph `pyscn check --select deps` builds is the graph of `pyscn analyze` (every project, every file order), and so
+   Python's graph for every well-formed project: the unbounded theorem speaks about `check` too (C11 F66) *)
+Theorem C12_check_graph_is_analyze_graph : forall pr order,
+  AnalyzeFiles_o check_opts pr order = AnalyzeFiles_o default_opts pr order.
+Proof. exact check_graph_is_analyze_graph. Qed.
+
+Theorem C12_check_edges_wf : forall pr, star_free pr = true -> wf_project pr = true ->
+  same_edges (edges_model_o check_opts pr) (edges_py pr) = true.
+Proof. exact check_edges_wf. Qed.
+
+(* project_shape (hence wf_project and every theorem above) no longer demands an __init__.py in every directory that
+   holds a module: namespace packages are allowed unless they are named like a standard-library module.  The former
+   shape is project_shape_strict *)
+Theorem C12_wf_admits_namespace_packages :
+  (wf_project w_namespace = true /\ project_shape_strict w_namespace = false /\ star_free w_namespace = true) /\
+  (forall pr, project_shape_strict pr = true -> project_shape pr = true).
+Proof. exact (conj wf_admits_namespace project_shape_strict_shape). Qed.
+
+(* the former witness of F62 / C11 F66 (two modules of a namespace package that import each other): the cycle is in the
+   graph with the default options and with the options of `pyscn check --select deps` *)
+Theorem C12_namespace_cycle_found :
   dirs_have_init w_namespace = false /\
   edges_model_o default_opts w_namespace = [([1; 2], [1; 3]); ([1; 3], [1; 2])]%N /\
   edges_py w_namespace = [([1; 2], [1; 3]); ([1; 3], [1; 2])]%N /\
-  edges_model_o check_opts w_namespace = [].
-Proof. exact include_third_party_matters. Qed.
+  edges_model_o check_opts w_namespace = edges_py w_namespace.
+Proof. exact namespace_cycle_found. Qed.
 
 (* src layout (F64) and wildcard re-export (F61): refuting witnesses *)
 Theorem C12_edges_refuted_src_layout :
@@ -268,30 +336,68 @@ Theorem C12_edges_refuted_wildcard_reexport :
   (class_wildcard_reexport wildcard = true) /\ (star_free wildcard = false).
 Proof. exact wildcard_reexport_not_followed. Qed.
 
+(* ---- conditions that mention TYPE_CHECKING (Deps/TcGuard.v; F63 repaired by baf3931) ------------------------------
+   FULL STATEMENT "model_tc e = spec_tc e for every condition" cannot hold of any static analysis: the value of
+   `TYPE_CHECKING or X` depends on X.  Proved instead, for every condition over TYPE_CHECKING, typing.TYPE_CHECKING,
+   True / False, other names, not / and / or / == / != / is / is not:
+   - soundness for every value of the other names (no runtime import is ever lost): a body / an else branch the
+     analyser takes for type-checking-only is not executed;
+   - exactness when no other name occurs: the analyser's reading is Python's;
+   - the reading does not depend on the values of the other names (it is the three-valued evaluation runtimeValue
+     with TYPE_CHECKING = False), so a branch counted as runtime code although it is dead is one that runs for other values. *)
+Theorem C12_tc_guard_sound : forall e,
+  (model_tc e = true -> spec_tc e = true) /\ (model_tc_else e = true -> spec_tc_else e = true).
+Proof. exact guard_sound. Qed.
+
+Theorem C12_tc_guard_exact : forall e, flag_free e = true -> containsTypeChecking e = true ->
+  model_tc e = spec_tc e /\ model_tc_else e = spec_tc_else e.
+Proof. exact guard_exact. Qed.
+
+Theorem C12_tc_guard_value_sound : forall e v, runtimeValue e = Some v -> eval_guard e = v.
+Proof. exact runtimeValue_sound. Qed.
+
+Theorem C12_tc_guard_independent_of_other_names : forall e f, same_shape e f = true ->
+  model_tc e = model_tc f /\ model_tc_else e = model_tc_else f.
+Proof. exact guard_shape. Qed.
+
 (* `if TYPE_CHECKING:`, `if typing.TYPE_CHECKING:` and every conjunction with one of them on either side is recognised
    as type-checking-only, and Python never runs its body *)
 Theorem C12_tc_guard_conjunction_agrees : forall e, tc_conjunction e = true -> model_tc e = true /\ spec_tc e = true.
 Proof. exact tc_conjunction_agrees. Qed.
 
-(* a condition that does not mention TYPE_CHECKING, and every `not ...`, is runtime code for the analyser *)
-Theorem C12_tc_guard_only_if_mentioned : forall e, containsTypeChecking e = false -> model_tc e = false.
+(* a condition that does not mention TYPE_CHECKING is runtime code for the analyser, body and else branch *)
+Theorem C12_tc_guard_only_if_mentioned : forall e, containsTypeChecking e = false ->
+  model_tc e = false /\ model_tc_else e = false.
 Proof. exact no_tc_not_guard. Qed.
 
-(* FULL STATEMENT "model_tc e = spec_tc e for every condition" is false (F63): `TYPE_CHECKING or True` and
-   `TYPE_CHECKING == False` are true at run time and taken for type-checking guards *)
-Theorem C12_tc_guard_refuted_or : model_tc (GOr GTc (GFlag true)) = true /\ spec_tc (GOr GTc (GFlag true)) = false.
-Proof. exact guard_refuted_or. Qed.
-
-Theorem C12_tc_guard_refuted_compare : model_tc (GEq GTc (GFlag false)) = true /\ spec_tc (GEq GTc (GFlag false)) = false.
-Proof. exact guard_refuted_compare. Qed.
+(* the inputs that exposed F63 (formerly C12_tc_guard_refuted_or / _refuted_compare): `TYPE_CHECKING or X`,
+   `not TYPE_CHECKING and X`, `TYPE_CHECKING == False`, `typing.TYPE_CHECKING is not True` are runtime code;
+   `not TYPE_CHECKING` makes the else branch type-checking-only, `not not TYPE_CHECKING` the body *)
+Theorem C12_tc_guard_repaired_witnesses :
+  (forall x, model_tc (GOr GTc (GFlag x)) = false /\ model_tc_else (GOr GTc (GFlag x)) = false) /\
+  (forall x, model_tc (GAnd (GNot GTc) (GFlag x)) = false /\ model_tc_else (GAnd (GNot GTc) (GFlag x)) = false) /\
+  (model_tc (GEq GTc (GConst false)) = false /\ spec_tc (GEq GTc (GConst false)) = false /\ model_tc_else (GEq GTc (GConst false)) = true) /\
+  (model_tc (GNe GTcAttr (GConst true)) = false /\ spec_tc (GNe GTcAttr (GConst true)) = false) /\
+  (model_tc (GNot GTc) = false /\ model_tc_else (GNot GTc) = true /\ spec_tc_else (GNot GTc) = true) /\
+  (model_tc (GNot (GNot GTc)) = true /\ spec_tc (GNot (GNot GTc)) = true) /\
+  (model_tc (GOr GTc (GConst true)) = false /\ model_tc_else (GOr GTc (GConst true)) = true).
+Proof. exact guard_repaired_witnesses. Qed.
 
 Print Assumptions C12_options_default_is_model.
 Print Assumptions C12_follow_relative_off.
+Print Assumptions C12_include_third_party_irrelevant.
 Print Assumptions C12_include_options_irrelevant.
-Print Assumptions C12_include_third_party_refuted_namespace.
+Print Assumptions C12_include_stdlib_matters_for_stdlib_named_namespace.
+Print Assumptions C12_check_graph_is_analyze_graph.
+Print Assumptions C12_check_edges_wf.
+Print Assumptions C12_wf_admits_namespace_packages.
+Print Assumptions C12_namespace_cycle_found.
 Print Assumptions C12_edges_refuted_src_layout.
 Print Assumptions C12_edges_refuted_wildcard_reexport.
+Print Assumptions C12_tc_guard_sound.
+Print Assumptions C12_tc_guard_exact.
+Print Assumptions C12_tc_guard_value_sound.
+Print Assumptions C12_tc_guard_independent_of_other_names.
 Print Assumptions C12_tc_guard_conjunction_agrees.
 Print Assumptions C12_tc_guard_only_if_mentioned.
-Print Assumptions C12_tc_guard_refuted_or.
-Print Assumptions C12_tc_guard_refuted_compare.
+Print Assumptions C12_tc_guard_repaired_witnesses.
